@@ -39,6 +39,21 @@ def main() -> int:
     budget = args.budget if args.budget is not None else getattr(mod, "BUDGET", {}).get(args.tier)
     if budget:
         ctx.deadline = time.time() + budget
+    # hard watchdog: a check must never hang (e.g. a spin loop the runtime does not see); exit 2 = harness error, no VIOLATION line
+    import signal  # noqa: PLC0415
+
+    def _watchdog(_sig, _frm):
+        print(f"HARNESS-ERROR property={args.prop.upper()} watchdog: no result after {hard}s", file=sys.stderr, flush=True)
+        try:
+            from mc import explore  # noqa: PLC0415
+
+            explore.close_pool()
+        finally:
+            os._exit(2)
+
+    hard = int((budget or 600) * 2 + 120)
+    signal.signal(signal.SIGALRM, _watchdog)
+    signal.alarm(hard)
     if args.replay:
         with open(args.replay) as f:
             rep = json.load(f)
